@@ -428,6 +428,24 @@ func (g *cgGen) yaml(d *cgDoc) string {
 			}
 		}
 	}
+	// further steps, which the generator does not read: their input objects reuse the object IDs of
+	// the create step with other properties, and add objects of their own (names sorting before and
+	// after "create")
+	if g.r.Intn(3) == 0 {
+		steps := []string{"alpha", "delete", "update", "zeta"}
+		g.r.Shuffle(len(steps), func(i, j int) { steps[i], steps[j] = steps[j], steps[i] })
+		for _, st := range steps[:1+g.r.Intn(len(steps))] {
+			b.WriteString("  " + st + ":\n    id: " + st + "\n    input:\n      objects:\n")
+			for i, o := range d.Objs {
+				if i > 2 {
+					break
+				}
+				b.WriteString("        " + g.key(o.Name) + ":\n          id: " + g.key(o.Name) + "\n          properties:\n")
+				b.WriteString("            only_in_" + st + ":\n              type:\n                type_id: " + []string{"string", "integer", "bool", "float"}[g.r.Intn(4)] + "\n")
+			}
+			b.WriteString("        Own" + st + ":\n          id: Own" + st + "\n          properties:\n            q:\n              type:\n                type_id: string\n")
+		}
+	}
 	return b.String()
 }
 
